@@ -1,6 +1,6 @@
 (* C14 property theorems.  Only statements closed by [exact]; each followed by Print Assumptions.
    Stated over the definitions the harness runs (C14.Model.run / run_prog on the abstract stack of C14.Stack). *)
-From Miller Require Import C14.Value C14.Stack C14.Model C14.Proofs C14.StackProofs C14.ScopeProofs C14.DepthProofs C14.InterpProofs C14.PrecProofs gen.Gen_Precedence.
+From Miller Require Import C14.Value C14.Stack C14.Model C14.Proofs C14.StackProofs C14.ScopeProofs C14.DepthProofs C14.InterpProofs C14.PrecProofs C14.ArrayProofs gen.Gen_Precedence.
 Open Scope Z_scope.
 
 (* ---- the pooled, recycled frames and framesets of pkg/runtime/stack.go are observationally the abstract scopes:
@@ -153,16 +153,145 @@ Proof. exact filter_sticky_variant_drops_later_records. Qed.
 Print Assumptions C14_filter_is_per_record_refuted_for_old_variant.
 
 (* ---- type declarations are enforced at indexed assignment too, for every local: x[i...] = v on a local declared with
-   type t succeeds only if t admits maps (so it always fails on int/num/str/bool locals), given that a map currently stored
-   in the slot respects the declaration *)
+   type t succeeds only if t admits maps (so it always fails on int/num/str/bool locals) -- or, now that arrays are values,
+   if the local already holds an array and t admits arrays (PutIndexed keeps an array an array: next theorem) -- given that
+   a collection currently stored in the slot respects the declaration.  (Before arrays were modelled the conclusion was
+   the first disjunct alone; that statement is false once `arr x = [1]; x[1] = 2` is in the language.) *)
 Theorem C14_type_gate_enforced_indexed :
   forall x vs v st fs r t st',
     stk st = fs :: r -> fs_type x fs = Some t ->
-    (forall m, fs_get x fs = Some (VMap m) -> gate t (VMap m) = true) ->
+    (forall c, fs_get x fs = Some c -> is_coll c = true -> gate t c = true) ->
     assign_local_indexed x vs v st = Ok (RO ONormal, st') ->
-    forall m, gate t (VMap m) = true.
+    (forall m, gate t (VMap m) = true) \/ (exists a, fs_get x fs = Some (VArr a) /\ forall a', gate t (VArr a') = true).
 Proof. exact indexed_assignment_gated. Qed.
 Print Assumptions C14_type_gate_enforced_indexed.
+
+Theorem C14_indexed_assignment_keeps_collection_kind :
+  forall idx c v c', is_coll c = true -> put_indexed c idx v = VOk c' -> is_map c' = is_map c /\ is_arr c' = is_arr c.
+Proof. exact put_indexed_keeps_kind. Qed.
+Print Assumptions C14_indexed_assignment_keeps_collection_kind.
+
+(* ---- arrays: 1-up indexing with negative aliases (-1 = last), reads out of bounds are absent *)
+Theorem C14_array_index_alias : forall a k, 1 <= k <= alen a -> arr_get a (k - alen a - 1) = arr_get a k.
+Proof. exact array_index_alias. Qed.
+Print Assumptions C14_array_index_alias.
+
+Theorem C14_array_read_in_bounds_is_1_up :
+  forall a k, 1 <= k <= alen a -> index_read (VArr a) (VInt k) = Ok (nth (Z.to_nat (k - 1)) a VAbsent).
+Proof. exact array_read_in_bounds. Qed.
+Print Assumptions C14_array_read_in_bounds_is_1_up.
+
+Theorem C14_array_read_out_of_bounds_is_absent :
+  forall a k, arr_inb (alen a) k = false -> index_read (VArr a) (VInt k) = Ok VAbsent.
+Proof. exact array_read_out_of_bounds_is_absent. Qed.
+Print Assumptions C14_array_read_out_of_bounds_is_absent.
+
+(* assignment to an in-bounds index (alias or not) replaces that element, keeps the length and every other element *)
+Theorem C14_array_put_get :
+  forall a k v, arr_inb (alen a) k = true ->
+    exists a', put_indexed (VArr a) [VInt k] v = VOk (VArr a') /\ arr_get a' k = Some v /\ alen a' = alen a.
+Proof. exact array_put_get. Qed.
+Print Assumptions C14_array_put_get.
+
+Theorem C14_array_put_leaves_other_elements :
+  forall a k j v, arr_inb (alen a) k = true -> zidx (alen a) k <> zidx (alen a) j ->
+    arr_get (arr_set a (zidx (alen a) k) v) j = arr_get a j.
+Proof. exact array_put_other. Qed.
+Print Assumptions C14_array_put_leaves_other_elements.
+
+(* auto-extend: one past the end appends exactly one element; index 0 and negative indices before the start are statement
+   errors.  FULL statement of the reference (reference-main-arrays.md "Auto-extend and null-gaps"): writing further out
+   extends the array and fills the gap with JSON null.  The model has no null value: it leaves the fragment there
+   (third theorem), and the correspondence skips and counts such programs. *)
+Theorem C14_array_auto_extend_by_one : forall a v, put_indexed (VArr a) [VInt (alen a + 1)] v = VOk (VArr (a ++ [v])).
+Proof. exact array_auto_extend_by_one. Qed.
+Print Assumptions C14_array_auto_extend_by_one.
+
+Theorem C14_array_put_zero_or_before_start_is_error :
+  forall a k v, k = 0 \/ k < - alen a -> put_indexed (VArr a) [VInt k] v = VErr.
+Proof. exact array_put_zero_or_before_start_is_error. Qed.
+Print Assumptions C14_array_put_zero_or_before_start_is_error.
+
+Theorem C14_array_put_beyond_partial : forall a k v, alen a + 1 < k -> put_indexed (VArr a) [VInt k] v = VUnsup.
+Proof. exact array_put_beyond_is_outside_fragment. Qed.
+Print Assumptions C14_array_put_beyond_partial.
+
+(* inclusive slices with 1-up bounds, negative aliases, trimming *)
+Theorem C14_slice_is_inclusive :
+  forall (l : list value) lo hi, 1 <= lo -> lo <= hi -> hi <= Z.of_nat (List.length l) ->
+    slice_list l lo hi = firstn (Z.to_nat (hi - lo + 1)) (skipn (Z.to_nat (lo - 1)) l).
+Proof. exact (@slice_is_firstn_skipn value). Qed.
+Print Assumptions C14_slice_is_inclusive.
+
+Theorem C14_slice_length :
+  forall (l : list value) lo hi, 1 <= lo -> lo <= hi -> hi <= Z.of_nat (List.length l) ->
+    Z.of_nat (List.length (slice_list l lo hi)) = hi - lo + 1.
+Proof. exact (@slice_length value). Qed.
+Print Assumptions C14_slice_length.
+
+Theorem C14_slice_negative_alias :
+  forall (l : list value) lo hi, 1 <= lo <= Z.of_nat (List.length l) -> 1 <= hi <= Z.of_nat (List.length l) ->
+    slice_list l (lo - Z.of_nat (List.length l) - 1) (hi - Z.of_nat (List.length l) - 1) = slice_list l lo hi.
+Proof. exact (@slice_negative_alias value). Qed.
+Print Assumptions C14_slice_negative_alias.
+
+Theorem C14_slice_out_of_range_is_trimmed :
+  forall (l : list value) lo hi, 1 <= lo -> Z.of_nat (List.length l) <= hi -> slice_list l lo hi = skipn (Z.to_nat (lo - 1)) l.
+Proof. exact (@slice_trims value). Qed.
+Print Assumptions C14_slice_out_of_range_is_trimmed.
+
+Theorem C14_array_unset_shifts :
+  forall a k, 1 <= k <= alen a -> remove_indexed (VArr a) [VInt k] = VArr (firstn (Z.to_nat (k - 1)) a ++ skipn (Z.to_nat k) a).
+Proof. exact array_unset_shifts. Qed.
+Print Assumptions C14_array_unset_shifts.
+
+(* arguments by value, arrays: C14_arguments_by_value_callee_cannot_touch_caller_locals above quantifies over all values,
+   arrays included; this is its computed instance (the callee overwrites, extends and unsets elements of its parameter) *)
+Theorem C14_array_argument_by_value_instance :
+  run_prog documented array_by_value_witness false 60 [] =
+  Ok [ORec [(B "inner", VArr [VInt 99; VInt 3; VInt 7]); (B "outer", VArr [VInt 1; VInt 2; VInt 3])]].
+Proof. exact array_by_value_example. Qed.
+Print Assumptions C14_array_argument_by_value_instance.
+
+(* ---- positional names $[[n]] / values $[[[n]]] *)
+Theorem C14_positional_out_of_range_assignment_is_noop :
+  forall m p v, pos_idx m p = None -> pos_put_value m p v = m /\ pos_put_name m p v = m.
+Proof. exact positional_out_of_range_is_noop. Qed.
+Print Assumptions C14_positional_out_of_range_assignment_is_noop.
+
+Theorem C14_positional_negative_alias :
+  forall m p, 1 <= p <= Z.of_nat (List.length m) -> pos_idx m (p - Z.of_nat (List.length m) - 1) = pos_idx m p.
+Proof. exact positional_alias. Qed.
+Print Assumptions C14_positional_negative_alias.
+
+Theorem C14_positional_value_assignment_keeps_names : forall m p v, mkeys (pos_put_value m p v) = mkeys m.
+Proof. exact positional_value_assignment_keeps_names. Qed.
+Print Assumptions C14_positional_value_assignment_keeps_names.
+
+(* ---- emitf @a, @b = one record with those names *)
+Theorem C14_emitf_is_one_record :
+  forall fns rec items st vs st1,
+    rec (TEvals (map snd items)) st = Ok (RVs vs, st1) ->
+    step fns rec (TExec (SEmitF items)) st =
+    Ok (RO ONormal, emit_item (ORec (fold_left (fun r kv => match snd kv with VAbsent => r | v => mput (fst kv) v r end)
+                                               (combine (map fst items) vs) [])) st1).
+Proof. exact emitf_is_one_record. Qed.
+Print Assumptions C14_emitf_is_one_record.
+
+Example C14_positional_nonvacuous :
+  pos_idx [(B "a", VInt 1); (B "b", VInt 2)] 3 = None
+  /\ pos_put_name [(B "a", VInt 1); (B "b", VInt 2); (B "c", VInt 3)] 1 (VStr (B "b")) = [(B "b", VInt 1); (B "c", VInt 3)]
+  /\ pos_name [(B "a", VInt 1); (B "b", VInt 2)] (-1) = Some (B "b").
+Proof. repeat split; vm_compute; reflexivity. Qed.
+
+Example C14_arrays_nonvacuous :
+  arr_get [VInt 10; VInt 20; VInt 30] (-1) = Some (VInt 30)
+  /\ arr_inb (alen [VInt 10; VInt 20; VInt 30]) (-3) = true /\ arr_inb 3 0 = false /\ arr_inb 3 4 = false
+  /\ slice_list [VInt 1; VInt 2; VInt 3; VInt 4; VInt 5] 2 3 = [VInt 2; VInt 3]
+  /\ slice_list [VInt 1; VInt 2; VInt 3; VInt 4; VInt 5] (-2) (-1) = [VInt 4; VInt 5]
+  /\ slice_read (VStr (B "hello")) (VInt 2) (VInt 3) = VStr (B "el")
+  /\ put_indexed (VArr [VInt 1]) [VInt 2; VStr (B "k")] (VInt 5) = VOk (VArr [VInt 1; VMap [(B "k", VInt 5)]]).
+Proof. repeat split; vm_compute; reflexivity. Qed.
 
 (* ---- emit @name, "a", "b" splits a two-level map exactly into the records of the two-level grouping *)
 Theorem C14_emit_by_names_splits_like_grouping :
